@@ -115,7 +115,8 @@ def ref_evolve(c, steps):
         for row in range(R):
             for col in range(C):
                 n = ref_nbhd(g, c["r"], vn, row, col)
-                nxt[row][col] = int(rule(_as_array(n), (row, col), t))
+                rule(_as_array(n), (row, col), t)
+                nxt[row][col] = int(rule.stored())
         grids.append(nxt)
         g = nxt
     return grids, rule.log
